@@ -18,6 +18,7 @@ pub mod c07;
 pub mod c08;
 pub mod c09;
 pub mod c10;
+pub mod c11;
 
 pub fn scenarios(prop: &str, tier: Tier) -> Vec<Scenario> {
     match prop {
@@ -31,6 +32,7 @@ pub fn scenarios(prop: &str, tier: Tier) -> Vec<Scenario> {
         "C08" => c08::scenarios(tier),
         "C09" => c09::scenarios(tier),
         "C10" => c10::scenarios(tier),
+        "C11" => c11::scenarios(tier),
         _ => vec![],
     }
 }
